@@ -378,6 +378,9 @@ func c02ExecPin(c *fw.Ctx, pin string, hist []string) bool {
 }
 
 func c02Run1(c *fw.Ctx) {
+	{
+		interfRun(c, "C02") // statement-level interleavings of operations on shared / disjoint objects (subprocess)
+	}
 	// interleavings of the pairing handlers of several connections, explored under the cooperative scheduler in a
 	// subprocess (the last worker shards run one part each, next to their share of the trees)
 	if part := c.NShards - 1 - c.Shard; part < pschedParts || c.NShards == 1 {
